@@ -101,6 +101,7 @@ type Mutation {
 type Subscription {
   tick(n: Int): A
   count: Int
+  strict: Int!
 }
 """
 
